@@ -7,6 +7,7 @@ import (
 	"regexp"
 	"sort"
 	"strings"
+	"text/template/parse"
 
 	"goacheck/an"
 )
@@ -31,6 +32,8 @@ func runC02(c *an.Ctx) string {
 	r078RequiredKeys(c, "R02.6", []string{"expr", "http/codegen"})
 	encoderNilGuards(c, "R02.7", "http/codegen/templates/request_encoder.go.tpl", "http/codegen/templates/request_builder.go.tpl")
 	r028RefsAndBases(c, "R02.8")
+	aliasFlattening(c, "R02.9") // a payload attribute of an alias type keeps its own validation (shared with C04/R04.12)
+	r0210MergeCopies(c, "R02.10")
 	r15RequestEncoder(c) // shared with C15 (rule id R15.2): the client encodes the body with the codec of the type it announces
 	return explanationC02
 }
@@ -51,8 +54,76 @@ func runC03(c *an.Ctx) string {
 	return explanationC03
 }
 
+// nameTableRoles: which field (and which local that initialises it in a composite literal) is the name table
+// (attribute name → wire name, role "nameMap") and which the reverse table (role "reverseMap"). The roles are
+// read off Remap, which splits "attribute:wire" keys: the table stored under the first part is the name table.
+var nameTableRoles map[types.Object]string
+
+func computeNameTableRoles(c *an.Ctx, rule string) bool {
+	nameTableRoles = map[types.Object]string{}
+	f := c.MustFunc(rule, "expr", "MappedAttributeExpr.Remap")
+	if f == nil {
+		return false
+	}
+	info := f.Pkg.TypesInfo
+	ast.Inspect(f.Decl.Body, func(n ast.Node) bool {
+		as, ok := n.(*ast.AssignStmt)
+		if !ok || len(as.Lhs) != 1 || len(as.Rhs) != 1 {
+			return true
+		}
+		ix, ok := an.Unparen(as.Lhs[0]).(*ast.IndexExpr)
+		if !ok {
+			return true
+		}
+		fv := an.FieldOf(info, ix.X)
+		part, ok := an.Unparen(ix.Index).(*ast.IndexExpr)
+		if fv == nil || !ok {
+			return true
+		}
+		if k, isK := an.ConstInt(info, part.Index); isK && k == 0 {
+			nameTableRoles[fv] = "nameMap"
+		} else if isK && k == 1 {
+			nameTableRoles[fv] = "reverseMap"
+		}
+		return true
+	})
+	roles := map[string]int{}
+	for _, r := range nameTableRoles {
+		roles[r]++
+	}
+	if len(nameTableRoles) != 2 || roles["nameMap"] != 1 || roles["reverseMap"] != 1 {
+		c.Add(an.Obligation{Rule: rule, Construct: f.Name + "#tables", Status: an.LOST, Detail: "Remap no longer stores one table under the attribute part and one under the wire part of \"attribute:wire\""})
+		return false
+	}
+	// locals that initialise the fields in composite literals
+	for _, g := range c.AllFuncs("expr") {
+		if !strings.HasPrefix(c.Position(g.Decl.Pos()), "expr/mapped_attribute.go") {
+			continue
+		}
+		ginfo := g.Pkg.TypesInfo
+		ast.Inspect(g.Decl.Body, func(n ast.Node) bool {
+			kv, ok := n.(*ast.KeyValueExpr)
+			if !ok {
+				return true
+			}
+			if role, isTable := nameTableRoles[an.ObjOf(ginfo, kv.Key)]; isTable {
+				if o := an.ObjOf(ginfo, kv.Value); o != nil {
+					if _, isVar := o.(*types.Var); isVar {
+						nameTableRoles[o] = role
+					}
+				}
+			}
+			return true
+		})
+	}
+	return true
+}
+
 func r021NameTables(c *an.Ctx) {
 	const rule = "R02.1"
+	if !computeNameTableRoles(c, rule) {
+		return
+	}
 	n := 0
 	for _, f := range c.AllFuncs("expr") {
 		if !strings.HasPrefix(c.Position(f.Decl.Pos()), "expr/mapped_attribute.go") {
@@ -150,12 +221,12 @@ func r021NameTables(c *an.Ctx) {
 }
 
 func tableName(info *types.Info, e ast.Expr) string {
-	if fv := an.FieldOf(info, e); fv != nil && (fv.Name() == "nameMap" || fv.Name() == "reverseMap") {
-		return fv.Name()
+	if fv := an.FieldOf(info, e); fv != nil {
+		return nameTableRoles[fv]
 	}
-	// locals named after the tables in constructors/copies
-	if id, ok := an.Unparen(e).(*ast.Ident); ok && (id.Name == "nameMap" || id.Name == "reverseMap") {
-		return id.Name
+	// locals that initialise the tables in constructors/copies
+	if o := an.ObjOf(info, e); o != nil {
+		return nameTableRoles[o]
 	}
 	return ""
 }
@@ -422,7 +493,54 @@ func r031Status(c *an.Ctx) {
 	}
 	// response_encoder.go.tpl: tagged arms compare the tag with the element's TagValue
 	if et, err := c.TplFile("http/codegen/templates/response_encoder.go.tpl"); err == nil {
-		ok := regexp.MustCompile(`\{\{\s*\.TagName\s*\}\}[^\n]*==[^\n]*\{\{\s*printf "%q" \.TagValue\s*\}\}`).MatchString(et.Src) || regexp.MustCompile(`TagName[^\n]*TagValue`).MatchString(et.Src)
+		// inside `if .TagName`: every comparison reads the tag attribute (named by .TagName, directly or through
+		// a template variable) on its left and prints the response's own .TagValue on its right
+		ok, comparisons := true, 0
+		an.WalkTpl(et.Tree.Root, func(n parse.Node) bool {
+			in, isIf := n.(*parse.IfNode)
+			if !isIf {
+				return true
+			}
+			if fs := an.TplFields(in.Pipe); len(fs) != 1 || fs[0] != ".TagName" {
+				return true
+			}
+			toks := an.TplLinear(in.List)
+			has := func(fs []string, f string) bool {
+				for _, x := range fs {
+					if x == f {
+						return true
+					}
+				}
+				return false
+			}
+			for i, tk := range toks {
+				if tk.Action || !strings.Contains(tk.Text, "==") {
+					continue
+				}
+				comparisons++
+				left := false
+				for j := i; j >= 0; j-- {
+					if toks[j].Action && has(toks[j].Fields, ".TagName") {
+						left = true
+					}
+					if !toks[j].Action && j != i && strings.Contains(toks[j].Text, "if ") {
+						break
+					}
+				}
+				right := false
+				for j := i + 1; j < len(toks); j++ {
+					if toks[j].Action {
+						right = has(toks[j].Fields, ".TagValue")
+						break
+					}
+				}
+				if !left || !right {
+					ok = false
+				}
+			}
+			return true
+		})
+		ok = ok && comparisons > 0
 		c.Check(ok, rule, et.Name+"#tags", 0, "tagged responses are selected by comparing the tag attribute with the response's own tag value", "the tag comparison with {{ .TagValue }} is gone from the response encoder")
 	}
 	// client: case labels from StatusCode
@@ -656,4 +774,33 @@ func r028RefsAndBases(c *an.Ctx, rule string) {
 		})
 	}
 	c.Floor(rule, n, 4, "Merge/Inherit calls in loops over References and Bases")
+}
+
+// r0210MergeCopies (R02.10): AttributeExpr.Merge takes over the child attribute
+// objects of its argument. A mapped attribute (params, headers, cookies of a
+// service or of the API) is merged into every endpoint that inherits it, and
+// Finalize then fills those children in place (defaults, validations): the
+// argument handed to Merge must therefore be a copy made for the occasion (the
+// result of a call such as Attribute() or DupAtt), never the other mapped
+// attribute's own AttributeExpr - or the first endpoint's defaults and
+// validations show up in all the others.
+func r0210MergeCopies(c *an.Ctx, rule string) {
+	f := c.MustFunc(rule, "expr", "MappedAttributeExpr.Merge")
+	if f == nil {
+		return
+	}
+	info := f.Pkg.TypesInfo
+	n := 0
+	ast.Inspect(f.Decl.Body, func(nd ast.Node) bool {
+		call, ok := nd.(*ast.CallExpr)
+		if !ok || an.CalleeName(info, call) != "(*"+an.P("expr")+".AttributeExpr).Merge" || len(call.Args) != 1 {
+			return true
+		}
+		n++
+		arg := an.ResolveLocal(info, f.Decl.Body, call.Args[0])
+		_, isCall := an.Unparen(arg).(*ast.CallExpr)
+		c.Check(isCall, rule, f.Name+"#Merge("+an.Src(c.Fset, call.Args[0])+")", call.Pos(), "the inherited mapped attribute is merged from a copy", "the inherited mapped attribute's own attribute ("+an.Src(c.Fset, arg)+") is merged in, not a copy of it: every endpoint that inherits it shares its child attributes, and what Finalize writes into them for one endpoint (default value, validation) is seen by the others")
+		return true
+	})
+	c.Floor(rule, n, 1, "merges of an inherited mapped attribute")
 }
